@@ -107,10 +107,14 @@ def prune_cache(keep=120):
 
 
 def build_all(specs):
-    """specs: list of dict(driver, flavour, defines, shim). Parallel compile. Returns list of exe paths."""
+    """specs: list of dict(driver, flavour, defines, shim). Parallel compile (identical specs once). Returns exe paths."""
+    uniq = {}
+    for s in specs:
+        uniq.setdefault(json.dumps(s, sort_keys=True), s)
     with ThreadPoolExecutor(max_workers=max(1, min(NCPU, 12))) as ex:
-        futs = [ex.submit(build, s['driver'], s.get('flavour', 'asan'), s.get('defines'), s.get('shim', False), s.get('extra')) for s in specs]
-        return [f.result() for f in futs]
+        futs = {k: ex.submit(build, s['driver'], s.get('flavour', 'asan'), s.get('defines'), s.get('shim', False), s.get('extra')) for k, s in uniq.items()}
+        done = {k: f.result() for k, f in futs.items()}
+    return [done[json.dumps(s, sort_keys=True)] for s in specs]
 
 
 # ------------------------------------------------------------------ running
